@@ -14,7 +14,7 @@
 EXTENDS Scheduler, SchedTraceData
 
 (* SchedTraceData (generated per validation batch) defines                                                      *)
-(*   Traces   sequence of [shape, outs, scan, steps]; steps: sequence of step tuples (see Matches)              *)
+(*   Traces   sequence of [shape, outs, scan, start, memo, steps]; steps: sequence of step tuples (see Matches)  *)
 
 VARIABLES tid, l
 tvars == <<vars, tid, l>>
@@ -22,7 +22,8 @@ tvars == <<vars, tid, l>>
 T == Traces[tid].steps
 
 (* a step record is the tuple <<ev, c, cs, exitR, nrun, nrestart, nresub, fin, killreq, notified, done, staged, stop,  *)
-(* stage, phase, verdict>> (positional: record fields named like the variables would only trigger SANY warnings)          *)
+(* stage, phase, verdict, killed, memoized, sleepReq, asleep, postponed, nsleep>> (positional: record fields named like  *)
+(* the variables would only trigger SANY warnings)                                                                        *)
 Ev(e) == e[1]
 Arg(e) == e[2]
 Matches(e) ==
@@ -30,12 +31,15 @@ Matches(e) ==
   /\ fin' = e[8] /\ killreq' = e[9] /\ notified' = e[10]
   /\ done' = e[11] /\ staged' = e[12] /\ stop' = e[13] /\ stage' = e[14] /\ phase' = e[15]
   /\ verdict' = e[16]
+  /\ killed' = e[17] /\ memoized' = e[18] /\ sleepReq' = e[19] /\ asleep' = e[20] /\ postponed' = e[21] /\ nsleep' = e[22]
 
+(* the run's constants come from the record: shape, fault sequences, scan order, starting stage, memoization answers *)
 TraceInit ==
   /\ tid \in 1..Len(Traces)
   /\ l = 0
   /\ sid = Traces[tid].shape /\ oa = Traces[tid].outs /\ order = Traces[tid].scan
-  /\ cs = [c \in 1..Shapes[sid].n |-> "idle"]
+  /\ start = Traces[tid].start /\ memo = Traces[tid].memo
+  /\ cs = [c \in 1..Shapes[sid].n |-> IF c \in Skipped(sid, start) THEN "finished" ELSE "idle"]
   /\ exitR = [c \in 1..Shapes[sid].n |-> "none"]
   /\ nrun = [c \in 1..Shapes[sid].n |-> 0]
   /\ nrestart = [c \in 1..Shapes[sid].n |-> 0]
@@ -44,7 +48,10 @@ TraceInit ==
   /\ target = [c \in 1..Shapes[sid].n |-> "none"]
   /\ killreq = [c \in 1..Shapes[sid].n |-> FALSE]
   /\ notified = [c \in 1..Shapes[sid].n |-> FALSE]
-  /\ done = {} /\ staged = {} /\ stop = FALSE /\ stage = 0 /\ phase = "running" /\ verdict = <<>>
+  /\ done = Skipped(sid, start) /\ staged = {} /\ stop = FALSE /\ stage = start /\ phase = "running"
+  /\ verdict = SubSeq(SkipVerdicts, 1, start)
+  /\ killed = FALSE /\ memoized = {}
+  /\ sleepReq = FALSE /\ asleep = FALSE /\ postponed = {} /\ nsleep = 0
 
 (* what an rx hop that is no controller callback may do to the projected state *)
 Internal == \/ UNCHANGED vars
@@ -60,6 +67,9 @@ Step(e) ==
     [] Ev(e) = "Internal" -> Internal
     [] Ev(e) = "StageEnd" -> StageEnd
     [] Ev(e) = "Cleanup" -> Cleanup
+    [] Ev(e) = "ExternalKill" -> ExternalKill
+    [] Ev(e) = "Sleep" -> SleepCall
+    [] Ev(e) = "WakeUp" -> WakeUp
     [] OTHER -> FALSE
 
 TraceNext ==
@@ -83,4 +93,7 @@ TLaunchSafeModuloKnown == [][\A c \in Comp : (nrun[c] = 0 /\ nrun'[c] = 1) => (L
 TLaunchSafe == [][\A c \in Comp : (nrun[c] = 0 /\ nrun'[c] = 1) => LaunchOk(c)]_tvars
 TFinalAbsorbing == [][\A c \in Comp : cs[c] \in Final => cs'[c] = cs[c]]_tvars
 TNoRunAfterFinal == [][\A c \in Comp : cs[c] \in Final => nrun'[c] = nrun[c]]_tvars
+TNoLaunchAfterStop == [][(killed \/ stop) => \A c \in Comp : nrun'[c] = nrun[c]]_tvars
+TNoLaunchWhileAsleep == [][(sleepReq \/ asleep') => \A c \in Comp : ~(nrun[c] = 0 /\ nrun'[c] = 1)]_tvars
+TNoStageInWhileAsleep == [][sleepReq => \A c \in staged' \ staged : fin'[c] /\ nrun'[c] = 0]_tvars
 =============================================================================
